@@ -437,7 +437,9 @@ def assemble(unit_path, repo=REPO):
             except ExtractError:
                 text = src.item('static', name)
             asm.types.append('%s const %s' % (file, name))
-            asm.add(rsx.strip_attrs(rsx.strip_comments(text)))
+            text = rsx.strip_attrs(rsx.strip_comments(text))
+            text = re.sub(r':\s*&\s*str\b', ": &'static str", text)
+            asm.add(text)
             i += 1
         elif d == 'stmtfn':
             # an expression statement inside a function that cannot be ingested as a whole (plugin glue): the expression text
@@ -534,6 +536,12 @@ def assemble(unit_path, repo=REPO):
                 sig = sig.replace('crate::Result<', 'crate::cr::Result<')
                 body = body.replace('crate::Result<', 'crate::cr::Result<')
                 rw.note('crate::Result->crate::cr::Result (alias module)', n_cr)
+            if kv.get('sigrep'):
+                a_, b_ = kv['sigrep'].strip('"').split('=>')
+                if a_ not in sig:
+                    raise ExtractError('%s: sigrep anchor lost' % name)
+                sig = sig.replace(a_, b_)
+                asm.manual.append('%s: signature %r => %r' % (fnrec.key, a_, b_))
             if kv.get('vis'):
                 sig = re.sub(r'^(pub(\s*\([^)]*\))?\s+)?', kv['vis'] + ' ', sig.strip(), count=1)
             emit_fn(asm, fnrec, sig, body, contract, kv.get('ret', 'r'))
